@@ -129,6 +129,8 @@ pub struct World {
     pub concurrent: bool,
     pub had_stash: bool,
     pub draining: bool,
+    pub ascii: bool,
+    pub nchars: u32,
     pub ext: crate::monitors::Ext,
 }
 
@@ -152,6 +154,8 @@ impl World {
             concurrent: false,
             had_stash: false,
             draining: false,
+            ascii: false,
+            nchars: 0,
             ext: crate::monitors::Ext::default(),
         };
         crate::monitors::init(&mut w);
@@ -162,7 +166,7 @@ impl World {
         self.log[self.log.len().saturating_sub(n)..].join(" ; ")
     }
 
-    fn v<T>(&self, prop: &'static str, kind: &str, detail: String) -> Result<T, Violation> {
+    pub fn v<T>(&self, prop: &'static str, kind: &str, detail: String) -> Result<T, Violation> {
         viol(prop, kind, format!("{} ;; log tail: {}", detail, self.tail(6)))
     }
 
@@ -187,6 +191,7 @@ impl World {
                 Some(x) => x.clone(),
                 None => u.encode_v2(),
             };
+            crate::monitors::twin_feed(self, r, &v1, false, true, local)?;
             self.msgs.push(Msg { author: r, v1, v2, local });
             let k = self.msgs.len() - 1;
             if crate::util::debug() {
@@ -207,6 +212,8 @@ impl World {
         };
         let blocks = yrs::verif::update_blocks(&u);
         self.reps[to].model.hand(&blocks, u.delete_set(), what);
+        crate::monitors::pre_txn(self, to);
+        crate::monitors::twin_feed(self, to, bytes, v2, false, false)?;
         let doc = self.reps[to].doc.clone();
         let res = catch(move || doc.transact_mut().apply_update(u));
         match res {
@@ -233,23 +240,27 @@ impl World {
                 if self.msgs.iter().enumerate().any(|(k, m)| m.local && !self.delivered[r].contains(&k)) {
                     self.concurrent = true;
                 }
-                let before = if self.mon.c07 || self.mon.c11 { Some(self.reps[r].dump()) } else { None };
+                let before = if self.mon.c11 { Some(self.reps[r].dump()) } else { None };
+                crate::monitors::pre_txn(self, r);
                 let doc = self.reps[r].doc.clone();
                 let roots = self.reps[r].roots.clone();
                 let kind = self.reps[r].kind;
                 let rid = self.reps[r].cfg.id;
                 let mut tagn = self.tagn;
+                let mut nchars = self.nchars;
+                let ascii = self.ascii;
                 let mut log = std::mem::take(&mut self.log);
                 let max_depth = self.max_depth;
                 let mut effects: Vec<Effect> = vec![];
                 let res = catch(|| {
                     let mut txn = doc.transact_mut();
-                    let mut ctx = OpCtx { tagn: &mut tagn, kind, log: &mut log, rid, max_depth };
+                    let mut ctx = OpCtx { tagn: &mut tagn, kind, log: &mut log, rid, max_depth, ascii, nchars: &mut nchars };
                     for c in calls {
                         effects.extend(exec_call(c, &roots, &mut txn, &mut ctx));
                     }
                 });
                 self.tagn = tagn;
+                self.nchars = nchars;
                 self.log = log;
                 if let Err(p) = res {
                     return self.v(self.mon.prop, &format!("panic:{}", p.split(' ').next().unwrap_or("")), format!("panic in local transaction: {}", p));
@@ -289,7 +300,17 @@ impl World {
                 };
                 self.cnt.inc(&format!("deliver_form{}", form % 4));
                 self.log.push(format!("deliver m{} (form {}) -> r{}", k, form % 4, self.reps[to].cfg.id));
+                let known = self.mon.c06 && self.delivered[to].contains(&k);
+                let pre = if known { Some(crate::monitors::finger(&self.reps[to].doc, &self.reps[to].roots)) } else { None };
+                let nmsgs = self.msgs.len();
                 self.apply(to, &bytes, v2, &format!("m{}", k))?;
+                if let Some(pre) = pre {
+                    let post = crate::monitors::finger(&self.reps[to].doc, &self.reps[to].roots);
+                    self.cnt.inc("c06_reapplications");
+                    if pre != post || self.msgs.len() != nmsgs {
+                        return self.v("C06", "reapply-changes", format!("re-applying the already applied update m{} changed r{} (emitted {} updates)", k, self.reps[to].cfg.id, self.msgs.len() - nmsgs));
+                    }
+                }
                 self.delivered[to].insert(k);
                 touched.push(to);
             }
@@ -376,6 +397,7 @@ impl World {
                 }
                 crate::monitors::relay_payload(self, from, to, form, &svv, &bytes)?;
                 self.apply(to, &bytes, form % 2 == 1, &format!("relay(r{},form{})", self.reps[from].cfg.id, form))?;
+                crate::monitors::after_relay(self, from, to, form)?;
                 if form < 2 {
                     let d: Vec<usize> = self.delivered[from].iter().cloned().collect();
                     for k in d {
